@@ -33,6 +33,7 @@ import ModVerif.Proofs.ModfileFmtCom
 import ModVerif.Proofs.ModfileStrictTokDir
 import ModVerif.Proofs.ModfileFmtRet2
 import ModVerif.Proofs.ModfileFmtRet3b
+import ModVerif.Proofs.ModfileFmtRet4d
 namespace ModVerif.Props.C02
 open ModVerif ModVerif.Modfile
 
@@ -1196,5 +1197,169 @@ example :
               decide (st1.file.retract.map (·.interval) = f.retract.map (·.interval)) &&
               decide (st1.file.module.map (·.mod.path) = f.module.map (·.mod.path)))
      | .error _ => false) = true := by decide +kernel
+
+/-! ### Clause 3 with a fixer and retract directives: the comment skeleton of the accepted tree, the frame of `File.add`
+
+  Helper files `Proofs/ModfileFmtRet4{,b,c,d}.lean`. -/
+
+open Proofs.ModfileEol in
+/-- ★ `updateLine_preserves_shape` — `FileSyntax.updateLine` with a function that only replaces the token list of a
+    line (the only way `fixRetract` changes the tree) keeps every token-erased statement — comments, parentheses, block
+    headers, identities, positions, `inBlock` — and the header and name of the tree. -/
+theorem updateLine_preserves_shape (fs : FileSyntax) (id : Nat) (g : Line → Line)
+    (hg : ∀ l, noTokL (g l) = noTokL l) :
+    (fs.updateLine id g).stmts.map noTok = fs.stmts.map noTok ∧ (fs.updateLine id g).comments = fs.comments ∧
+    (fs.updateLine id g).name = fs.name :=
+  Proofs.ModfileFmtRet.updateLine_noTok fs id g hg
+
+example : ∀ l : Line, Proofs.ModfileEol.noTokL { l with token := [B "v1.0.0"] } = Proofs.ModfileEol.noTokL l :=
+  fun _ => rfl
+
+open Proofs.ModfileEol in
+/-- ★ `fsyn_skeleton_fix` — the tree of an accepted parse (ANY fixer, strict or lax, with or without retract
+    directives) is the tree `parse` returned up to the tokens of its lines: `addStmts` and `fixRetract` rewrite tokens
+    only. -/
+theorem fsyn_skeleton_fix (name x : Bytes) (fix : Option Fixer) (strict : Bool) (f : Modfile.File)
+    (h : parseToFile name x fix strict = .ok f) :
+    ∃ fs, parse name x = .ok fs ∧ f.syn.stmts.map noTok = fs.stmts.map noTok ∧ f.syn.comments = fs.comments ∧
+      f.syn.name = fs.name :=
+  Proofs.ModfileFmtRet.fsyn_skeleton name x fix strict f h
+
+open Proofs.ModfileEol in
+/-- ★ `eolCount_syn_fix` — the tree of a STRICTLY accepted go.mod satisfies the counting condition `EolCount` (in
+    particular no comment is left over for the file header) for any fixer and without the side condition
+    `f.retract = []` that `eolCount_syn_of_parseToFile` needed. -/
+theorem eolCount_syn_fix (name x : Bytes) (fix : Option Fixer) (f : Modfile.File)
+    (h : parseToFile name x fix true = .ok f) : EolCount f.syn :=
+  Proofs.ModfileFmtRet.eolCount_syn_fix name x fix f h
+
+open Proofs.ModfileEol Proofs.ModfileFmtRet in
+/-- ★ `fsyn_printable_shape_fix` — for the tree of a strictly accepted go.mod (any fixer, with or without retract
+    directives) the printable shape `EWFStmts` holds as soon as the TOKENS of its lines are line tokens (`TokShape`:
+    non-empty, every token a `TokText`, a top-level line does not look like a block, a block line does not start with
+    `)`); everything `EWFStmts` says about comments, parentheses, block headers and `inBlock`, and "no header comment",
+    follow from the parse. -/
+theorem fsyn_printable_shape_fix (name x : Bytes) (fix : Option Fixer) (f : Modfile.File)
+    (h : parseToFile name x fix true = .ok f) (ht : ∀ s ∈ f.syn.stmts, TokShape s) :
+    EWFStmts f.syn.stmts ∧ f.syn.comments.before = [] :=
+  Proofs.ModfileFmtRet.fsyn_printable_shape_fix name x fix f h ht
+
+open Proofs.ModfileFmtRet Proofs.ModfileC20 in
+/-- ★ `add_retract_frame` — `File.add` never reads `file.retract`: a step on a verb other than `retract` commutes with
+    replacing the list of retractions of the state (`withRet`), with the same rewritten arguments.  (The per-step
+    ingredient of the two-run simulation that is still open, lean/PENDING.md.) -/
+theorem add_retract_frame (R : List Retract) (st : AddState) (block : Option Comments) (l : Line) (verb : Bytes)
+    (args : List Bytes) (fix : Option Fixer) (strict : Bool) (hv : (verb == B "retract") = false) :
+    File.add (withRet R st) block l verb args fix strict =
+      (withRet R (File.add st block l verb args fix strict).1, (File.add st block l verb args fix strict).2) :=
+  add_withRet R st block l verb args fix strict hv
+
+example : (B "require" == B "retract") = false := by decide +kernel
+
+open Proofs.ModfileFmtDir Proofs.ModfileEol Proofs.ModfileFmtRet in
+/-- ★ `format_preserves_directives_fix_partial3` — clause 3 WITH a version fixer and WITH `retract` directives for the
+    accepted file itself, the comment part of the tree hypotheses of `…_fix_partial2` DISCHARGED: if the strict parser
+    with the fixer `fx` (idempotent on its image, never the empty string) accepts `x` as the well-formed `f`, the
+    TOKENS of the lines of `f.syn` are line tokens (`TokShape`) without a newline byte on lines that carry an
+    end-of-line comment (`NlOK`), and a second run of the directive layer over `f.syn` reports no error, rewrites no
+    token and reads the values of `f`, then the strict parser with `fx` accepts `Format(f.syn)` with identical
+    values, retract intervals included.
+    PARTIAL: `ht`, `hnl` (for the retract lines they follow from `fixRetract_tokens` + `WellFormed f`, for the other
+    lines from the first run, whose rewritten arguments are line tokens) and the second-run hypotheses `ha`, `he`,
+    `hv` are not derived from the parse; `Module.Deprecated` / `Retract.Rationale` are not in the conclusion
+    (see lean/PENDING.md). -/
+theorem format_preserves_directives_fix_partial3 (name x : Bytes) (fx : Fixer) (f : Modfile.File) (st1 : AddState)
+    (h : parseToFile name x (some fx) true = .ok f) (hwf : WellFormed f)
+    (hfix : FixOK (some fx)) (hne : FixNE (some fx))
+    (ht : ∀ s ∈ f.syn.stmts, TokShape s) (hnl : ∀ s ∈ f.syn.stmts, NlOK s)
+    (ha : addStmts (some fx) true { file := { syn := f.syn } } f.syn.stmts = (st1, f.syn.stmts))
+    (he : st1.errsRev = []) (hv : values st1.file = values f) :
+    ∃ f', parseToFile name (format f.syn) (some fx) true = .ok f' ∧ values f' = values f :=
+  reparse_of_parse_fix3 name x fx f st1 h hwf hfix hne ht hnl ha he hv
+
+open Proofs.ModfileFmtDir Proofs.ModfileFmtRet in
+/-- non-vacuity of `fsyn_printable_shape_fix` / `…_fix_partial3`, evaluated with `fixStub` (sound checkers
+    `tokShapeB_sound`, `nlOKB_sound`): the go.mod with a retract line, an interval and a retract block whose versions
+    need fixing, plus a require line with an end-of-line comment, is accepted as a well-formed file; every statement
+    of `f.syn` satisfies `TokShape` and `NlOK`; `EolCount f.syn` holds; the second run over `f.syn` reports no error,
+    rewrites nothing and reads the same retract intervals, module path and requirements. -/
+example :
+    let x := B "module example.com/m\n\nrequire a.b/c latest // indirect\nretract latest // r1\nretract [v1.2, master]\nretract (\n\tv1.3.0+meta // r3\n)\n"
+    (match parseToFile (B "go.mod") x (some fixStub) true with
+     | .ok f => wellFormedB f && decide (f.retract.length = 3) &&
+         f.syn.stmts.all tokShapeB && f.syn.stmts.all nlOKB && Proofs.ModfileEol.eolCountB f.syn &&
+         (match addStmts (some fixStub) true { file := { syn := f.syn } } f.syn.stmts with
+          | (st1, ss) => decide (ss = f.syn.stmts) && st1.errsRev.isEmpty &&
+              decide (st1.file.retract.map (·.interval) = f.retract.map (·.interval)) &&
+              decide (st1.file.require.map (fun r => (r.mod, r.indirect)) = f.require.map (fun r => (r.mod, r.indirect))) &&
+              decide (st1.file.module.map (·.mod.path) = f.module.map (·.mod.path)))
+     | .error _ => false) = true := by decide +kernel
+
+open Proofs.ModfileFmtRet Proofs.ModfileC20 in
+/-- ★ `addStmts_retract_frame` — the frame lifted to the statement loop: over statements none of which is a `retract`
+    line or block (`isRetStmt`) the directive layer does not read `file.retract` — same rewritten statements, same final
+    state up to that list. -/
+theorem addStmts_retract_frame (R : List Retract) (fix : Option Fixer) (strict : Bool) (xs : List Expr) (st : AddState)
+    (h : ∀ x ∈ xs, isRetStmt x = false) :
+    addStmts fix strict (withRet R st) xs =
+      (withRet R (addStmts fix strict st xs).1, (addStmts fix strict st xs).2) :=
+  addStmts_withRet R fix strict xs st h
+
+example : ∀ x ∈ [Expr.line { token := [B "require", B "a.b/c", B "v1.0.0"] }, Expr.line { token := [B "go", B "1.21"] }],
+    Proofs.ModfileFmtRet.isRetStmt x = false := by decide +kernel
+
+open Proofs.ModfileFmtDir Proofs.ModfileEol Proofs.ModfileFmtTree Proofs.ModfileFmtRet in
+/-- ★ `second_run_nonretract_fixpoint` — the NON-retract half of the second run, one statement at a time and from ANY
+    state (its retractions may be the unfixed ones `File.add` records before `fixRetract`; `stepStmt` is one iteration
+    of `addStmts`, `Proofs.ModfileFmtRet.addStmts_cons`): if the strict step on a statement that is not a `retract`
+    line / block reports no error and the state after it is well-formed apart from its retractions, then the rewritten
+    statement has the printable shape (`EWFStmt`, `NlOK`), and every statement equal to it up to positions / trimmed
+    comments is a FIXPOINT of the directive layer (no error, no rewritten token) from every state that simulates the
+    state before the step with its retractions removed, ending in a state that simulates the state after the step with
+    its retractions removed.  Fixer: none, or idempotent on its image and never the empty string. -/
+theorem second_run_nonretract_fixpoint (fix : Option Fixer) (hfix : FixOK fix) (hne : FixNE fix)
+    (st : AddState) (x : Expr) (hx : isRetStmt x = false)
+    (he : (stepStmt fix true st x).1.errsRev = [])
+    (hwf : WellFormed (withRet [] (stepStmt fix true st x).1).file) (hw : EWFStmt x) (hnl : NlOK x) :
+    EWFStmt (stepStmt fix true st x).2 ∧ NlOK (stepStmt fix true st x).2 ∧
+    WellFormed (withRet [] st).file ∧ st.errsRev = [] ∧
+    ∀ (st' : AddState) (x' : Expr), Sim (withRet [] st) st' →
+      eraseExpr x' = normExprE (stepStmt fix true st x).2 →
+      ∃ st1', addStmts fix true st' [x'] = (st1', [x']) ∧ Sim (withRet [] (stepStmt fix true st x).1) st1' :=
+  Proofs.ModfileFmtRet.second_run_nonretract_fixpoint fix hfix hne st x hx he hwf hw hnl
+
+open Proofs.ModfileFmtDir Proofs.ModfileEol Proofs.ModfileFmtTree Proofs.ModfileFmtRet in
+/-- non-vacuity of `second_run_nonretract_fixpoint`: a `require` line, from a state that holds an UNFIXED retraction
+    (`latest`, not a valid version) -/
+example :
+    let x : Expr := .line { token := [B "require", B "a.b/c", B "v1.0.0"] }
+    let st : AddState := { file := { retract := [{ interval := ⟨B "latest", B "latest"⟩, rationale := [], lineId := 7 }] } }
+    isRetStmt x = false ∧ (stepStmt none true st x).1.errsRev = [] ∧
+    WellFormed (withRet [] (stepStmt none true st x).1).file ∧ EWFStmt x ∧ NlOK x := by
+  refine ⟨by decide +kernel, by decide +kernel, wellFormedB_sound (by decide +kernel), ?_, ?_⟩
+  · refine ⟨by decide, fun t ht => tokTextB_sound ?_, by decide +kernel, ?_, sufOK_nil, rfl, rfl⟩
+    · revert t; decide +kernel
+    · intro c hc; cases hc
+  · intro h; exact absurd rfl h
+
+open Proofs.ModfileEol Proofs.ModfileFmtRet Proofs.ModfileC20 in
+/-- ★ `fsyn_lines_map` — the tree effect of the deferred `fixRetract` pass, statement by statement: for a strictly
+    accepted go.mod with a fixer, `f.syn.stmts = mapLines F stmts`, where `stmts` are the statements the (error-free)
+    first run of the directive layer over the parsed tree rewrote (pairwise distinct line identities), `F` replaces
+    tokens only and leaves every line alone whose identity no retract entry of `f` carries; `f` is the state of that
+    run except for `syn` and the INTERVALS of its retract entries (same identities and rationales in the same order). -/
+theorem fsyn_lines_map (name x : Bytes) (fx : Fixer) (f : Modfile.File)
+    (h : parseToFile name x (some fx) true = .ok f) :
+    ∃ (fs : FileSyntax) (st : AddState) (stmts : List Expr) (F : Line → Line),
+      parse name x = .ok fs ∧ addStmts (some fx) true { file := { syn := fs } } fs.stmts = (st, stmts) ∧
+      st.errsRev = [] ∧ NodupIds stmts ∧ (∀ l, noTokL (F l) = noTokL l) ∧
+      (∀ l, l.id ∉ f.retract.map (·.lineId) → F l = l) ∧ f.syn.stmts = mapLines F stmts ∧
+      f.retract.map (·.lineId) = st.file.retract.map (·.lineId) ∧
+      f.retract.map (·.rationale) = st.file.retract.map (·.rationale) ∧
+      withRet [] ⟨{ f with syn := {} }, []⟩ = withRet [] ⟨{ st.file with syn := {} }, []⟩ :=
+  Proofs.ModfileFmtRet.fsyn_lines_map name x fx f h
+
+example : (match parseToFile (B "go.mod") (B "module example.com/m\n\nretract latest // r1\n") (some fixStub) true with
+    | .ok f => decide (f.retract.length = 1) | .error _ => false) = true := by decide +kernel
 
 end ModVerif.Props.C02
